@@ -216,8 +216,11 @@ def run_impl(d):
         # zero weights: exact for exp / cosh-1 ; decay handled across the scale series by the runner-independent check below
         if d["scale"] == 0 and kind in ("exp", "coshm1") and abs(gaps[0]) > 1e-9 * max(1.0, abs(truth[0])):
             fails.append(lin.fail(["C17"], "bound not tight at zero weights", site + ".integrate_log_conditional_y", None, gap=float(gaps[0])))
-        if d["scale"] in (Fr(1, 10), Fr(1, 100)) and kind != "heaviside":
-            # the same model with weights / 10: the gap must shrink at least 30-fold (quadratic decay ~ 100)
+        if d["scale"] == Fr(1, 100) and kind != "heaviside":
+            # the same model with weights / 10: the gap must shrink at least 30-fold (quadratic decay ~ 100).  Only the decade
+            # 1/100 -> 1/1000 is tested: the statement is asymptotic, and at larger scales the mean of h = w0 + s w'x still
+            # moves with s (the constant in gap <= s^2 (2 s^2 v1^2 + 4 m(s)^2 v1)/192, trunc/C17R.v, depends on it) -- the
+            # decade 1/10 -> 1/100 gave a ratio of 24 on a valid model (false alarm at seed 3)
             d2 = dict(d); d2["W"] = [[row[0]] + [v / 10 for v in row[1:]] for row in d["W"]]
             c2, p2 = c16.build(d2)
             lb2 = float(np.asarray(c2.integrate_log_conditional_y(p2, y=ys)).reshape(-1)[0])
